@@ -125,7 +125,7 @@ Proof.
   assert (JM : (J == Qz m0 / P31)%Q) by exact EJ.
   assert (QM1 : (Qz (k * 2147483648 + 1073741824) <= Qz m0)%Q) by (unfold Qz; rewrite <- Zle_Qle; exact M1).
   assert (QM2 : (Qz m0 <= Qz (k * 2147483648 + 1073741824 + 2147483647))%Q) by (unfold Qz; rewrite <- Zle_Qle; exact M2).
-  unfold Qz in QM1, QM2. rewrite !inject_Z_plus, inject_Z_mult in QM1, QM2.
+  unfold Qz in QM1, QM2. rewrite !inject_Z_plus, !inject_Z_mult in QM1. rewrite !inject_Z_plus, !inject_Z_mult in QM2.
   change (inject_Z 2147483648) with (2147483648 # 1)%Q in QM1, QM2.
   change (inject_Z 1073741824) with (1073741824 # 1)%Q in QM1, QM2.
   change (inject_Z 2147483647) with (2147483647 # 1)%Q in QM2.
